@@ -188,7 +188,7 @@ def to_xml(doc, model=None, selectors=None):
         if not val(n.get('present', True)):
             return
         if n['kind'] == 'text':
-            out.append(escape(val(n['text'])))
+            out.append(escape(val(n['text'])).replace('\r', '&#13;'))
             return
         if n['kind'] == 'comment':
             out.append('<!--%s-->' % n['text'])
@@ -200,7 +200,7 @@ def to_xml(doc, model=None, selectors=None):
             parts.append(' xmlns%s=%s' % (':' + p if p else '', quoteattr(val(u))))
         for k, v, pres in n['attrs']:
             if val(pres):
-                parts.append(' %s=%s' % (k, quoteattr(val(v))))
+                parts.append(' %s=%s' % (k, quoteattr(val(v)).replace('\n', '&#10;').replace('\r', '&#13;').replace('\t', '&#9;')))
         kids = list(n['children'])
         if 'order' in n and model is not None:
             perm = n['order'].value_in(model)
